@@ -218,6 +218,12 @@ def check_decoders(chk, tu, rule='R08.2', only=None):
                     continue
                 terms, const = dec
                 terms = {t for t in terms if t[2] < width}
+                # the result has `width` bits: of a byte shifted to position s only its low width - s payload bits arrive (the rest are
+                # padding / sign-extension bits of the encoding) - compare the contributions modulo 2^width
+                def low(t):
+                    return (t[0], t[1] & ((1 << max(0, min(7, width - t[2]))) - 1), t[2])
+                terms = {low(t) for t in terms}
+                exp_terms = {low(t) for t in exp_terms}
                 exp_const = 0
                 if signed and 7 * nbytes < width:
                     if not chk.expect(sign_taken is not None, rule, label + ':sign-test',
